@@ -99,7 +99,9 @@ def _lua_prog(rng, tag, n):
         # P8SCII bytes >= 0x80, some of them in sequences that happen to be well-formed UTF-8 (a .lua file is raw
         # P8SCII, a .p8 file is UTF-8 text of the glyphs: each source kind keeps its own bytes)
         lines.insert(rng.randrange(1, len(lines) + 1),
-                     b's_%s="\xe2\x99\xa5 \xe3\x81\x82" -- ' % t + bytes(rng.randrange(0x80, 0x100) for _ in range(6)) + b'\n')
+                     b's_%s="\xe2\x99\xa5 \xe3\x81\x82" -- ' % t +
+                     (bytes(rng.randrange(0x80, 0x100) for _ in range(6)) if n % 4 == 2 else b'\xe3\x81\x8b\xe2\x97\x8f') +
+                     b'\n')      # n % 4 == 0: the WHOLE text is well-formed UTF-8 of P8SCII glyphs
     if n % 3 == 0:
         # the code area writer of .p8.png treats text that mentions _update60 specially (a compatibility line is
         # appended to what it compresses and cut off again after decompressing): the section must still be the source's
